@@ -322,10 +322,11 @@ func buildBases(r *lib.RNG, res *lib.Result) *Base {
 // ---------------------------------------------------------------------------------------------
 
 type Directed struct {
-	Name  string
-	Near  bool // starts from the base (height W-10) instead of an empty node
-	Ops   func(height int) []Op
-	Probe string // which repair flag this history decides ("" = none)
+	Pruning bool // a pruning node: both runs use the pruner's initialiser
+	Name    string
+	Near    bool // starts from the base (height W-10) instead of an empty node
+	Ops     func(height int) []Op
+	Probe   string // which repair flag this history decides ("" = none)
 }
 
 func st(n int, p Plan) Op { return Op{Kind: "store", N: n, Plan: p} }
@@ -384,6 +385,36 @@ func directed() []Directed {
 				qu(filtB, 0, W-1, 2, 0),
 			}
 		}},
+		{Name: "pruned-rebuild-from-floor", Pruning: true, Ops: func(int) []Op {
+			pr := func(k int) Op { return Op{Kind: "prune", N: k} }
+			return []Op{
+				st(5, nil), st(1, evA), st(1, evB), st(5, nil), // 12 blocks, A in 5, B in 6
+				pr(5), {Kind: "restart"}, // no snapshot, no persisted window: rebuild from the floor itself
+				qu(filtA, 5, 11, 2, 0), qu(filtB, 5, 11, 2, 0), qu(filtA, 4, 11, 2, 0), qu(filtA, 0, 3, 2, 0),
+				Op{Kind: "query", Q: &Q{F: filtB, From: 6, To: 11, Chunk: 2, Tok: "3-1"}},
+				Op{Kind: "query", Q: &Q{F: filtB, From: 0, To: 11, Chunk: 2, Rpc: true, Api: "v9"}},
+				st(1, evA), rv(2), st(1, evB), {Kind: "restart"}, qu(filtB, 5, 12, 1, 1), qu(filtA, 5, 12, 1, 1),
+			}
+		}},
+		{Name: "pruned-fill-clamped-to-floor", Pruning: true, Ops: func(int) []Op {
+			return []Op{
+				st(9, nil), {Kind: "snap"}, st(2, nil), st(1, evA), st(1, evB), st(2, nil), // 15 blocks, A in 11, B in 12
+				{Kind: "prune", N: 11}, {Kind: "restart"}, // snapshot next = 9 < floor: fill from the floor
+				qu(filtA, 11, 14, 2, 0), qu(filtB, 11, 14, 2, 0), qu(filtA, 10, 14, 2, 0),
+				{Kind: "snap"}, {Kind: "prune", N: 12}, {Kind: "restart"}, qu(filtB, 12, 14, 1, 0), qu(filtA, 12, 14, 1, 0),
+			}
+		}},
+		{Name: "pruned-across-window-boundary", Near: true, Pruning: true, Ops: func(h int) []Op {
+			pr := func(k int) Op { return Op{Kind: "prune", N: k} }
+			return []Op{
+				st(W-3-h, nil), st(1, evA), st(4, nil), st(1, evB), st(4, nil), // A in W-3, B in W+2, head W+6
+				pr(W - 3), // floor inside the completed window 0: its persisted copy must stay
+				qu(filtA, W-3, W+6, 2, 0), {Kind: "restart"}, qu(filtA, W-3, W+6, 2, 0), qu(filtB, W-3, W+6, 2, 1), qu(filtA, W-4, W+6, 2, 0),
+				pr(W + 2), // floor in the head's window: window 0 goes
+				qu(filtB, W+2, W+6, 2, 0), {Kind: "restart"}, qu(filtB, W+2, W+6, 2, 0), qu(filtA, W-3, W+6, 2, 0),
+				st(1, evA), rv(2), st(2, evB), {Kind: "restart"}, qu(filtB, W+2, W+8, 1, 0), qu(filtA, W+2, W+8, 1, 0),
+			}
+		}},
 		{Name: "boundary-walk", Near: true, Ops: func(h int) []Op {
 			ops := []Op{st(W-2-h, nil), st(1, evA), st(1, evB)} // W-2 carries A, W-1 carries B: head W-1, rollover done
 			f := Filt{}
@@ -430,7 +461,7 @@ func startWorld(bases *Base, near bool, name string, r *lib.RNG, id uint64, res 
 
 func runDirected(bases *Base, d Directed, r *lib.RNG, id uint64, res *lib.Result, pool *DrvPool, v Variant) {
 	for _, newState := range []bool{false, true} {
-		prunerInit := newState // vary the initialiser with the backend
+		prunerInit := newState || d.Pruning // vary the initialiser with the backend
 		w := startWorld(bases, d.Near, d.Name, r, id*2+map[bool]uint64{false: 0, true: 1}[newState], res, pool, v, newState, prunerInit)
 		runOps(w, d.Ops(len(w.Chain)), "directed:"+d.Name)
 		w.close()
